@@ -509,6 +509,7 @@ func (tr data.Trie) GetAllHashes() (r [][]byte, err error)
   assigns  nothing
 
 func (adb *AccountsDB) getAccount(address []byte) (a vmcommon.AccountHandler, err error)
+  holds    mutOp      // private: every caller holds the accounts mutex (guarded_by declared in the C09/C10 block)
   requires wired: !isNil(adb.mainTrie) && !isNil(adb.marshalizer) && !isNil(adb.accountFactory)
   ensures  no-leaf-no-account: !trieFails(adb.mainTrie, str(address)) && isNil(trieValue(adb.mainTrie, str(address))) ==> isNil(a) && err == nil
   ensures  decoded-into-new-object: err == nil && !isNil(trieValue(adb.mainTrie, str(address))) ==> !isNil(a) && fresh(payload(a, ptr_state.userAccount)) && isUserAcc(a)
@@ -525,6 +526,7 @@ func (h vmcommon.AccountHandler) AddressBytes() (r []byte)
   pure
 
 func (adb *AccountsDB) removeDataTrie(baseAcc baseAccountHandler) (err error)
+  holds    mutOp      // private: every caller holds the accounts mutex (guarded_by declared in the C09/C10 block)
   requires wired: !isNil(adb.mainTrie) && !isNil(adb.obsoleteDataTrieHashes)
   requires account-is-user-account: isUser(baseAcc)
   ensures  no-storage-nothing-to-do: len(uaRootHash(baseAcc)) == 0 ==> err == nil && adb.entries == old(adb.entries) && len(adb.entries) == old(len(adb.entries))
@@ -709,6 +711,7 @@ func (h TriesHolder) Get(key []byte) (r data.Trie)
   assigns  nothing
 
 func (adb *AccountsDB) recreateTrie(rootHash []byte) (err error)
+  holds    mutOp      // private: every caller holds the accounts mutex (guarded_by declared in the C09/C10 block)
   requires wired: !isNil(adb.mainTrie) && !isNil(adb.dataTries)
   ensures  journal-emptied: len(adb.entries) == 0
   ensures  trie-replaced: err == nil ==> !isNil(adb.mainTrie)
